@@ -27,6 +27,10 @@ struct HoldApp {
     port: u16,
     held: Mutex<Vec<Held>>,
     cv: Condvar,
+    /// worker-pool shape: the thread that received a request stays with it (does not go back
+    /// to `recv`) until the request has been taken away to be answered
+    blocking: bool,
+    released: std::sync::atomic::AtomicBool,
 }
 
 impl CaseApp for HoldApp {
@@ -36,8 +40,16 @@ impl CaseApp for HoldApp {
     fn on_request(&self, rq: Request) {
         let mut h = self.held.lock().unwrap();
         let url = rq.url().to_string();
+        let idx = h.len();
         h.push(Held { rq: Some(rq), url, t_ns: now_ns() });
         self.cv.notify_all();
+        if self.blocking {
+            let deadline = Instant::now() + Duration::from_secs(10);
+            while h[idx].rq.is_some() && !self.released.load(std::sync::atomic::Ordering::SeqCst) && Instant::now() < deadline {
+                let (g, _) = self.cv.wait_timeout(h, Duration::from_millis(50)).unwrap();
+                h = g;
+            }
+        }
     }
 }
 
@@ -58,7 +70,13 @@ impl HoldApp {
         }
     }
     fn take(&self, k: usize) -> Option<Request> {
-        self.held.lock().unwrap().get_mut(k).and_then(|h| h.rq.take())
+        let r = self.held.lock().unwrap().get_mut(k).and_then(|h| h.rq.take());
+        self.cv.notify_all();
+        r
+    }
+    fn release(&self) {
+        self.released.store(true, std::sync::atomic::Ordering::SeqCst);
+        self.cv.notify_all();
     }
 }
 
@@ -128,12 +146,13 @@ fn send_wire(rng: &mut Rng, c: &mut Client, wire: &[u8]) {
     }
 }
 
-fn run_trial(ctx: &Ctx, env: &Env, cs: u64) {
+fn run_trial(ctx: &Ctx, env: &Env, cs: u64, workers: bool) {
     let rep = &ctx.rep;
     let mut rng = Rng::new(cs);
     let trial = cs & 0xffff_ffff;
     let n = rng.range(2, 8);
-    let program_b = rng.chance(1, 2);
+    // worker-pool shape (eight threads blocked in recv, each stays with its request): program A
+    let program_b = rng.chance(1, 2) && !workers;
     let small_kinds = [BodyKind::None, BodyKind::None, BodyKind::Cl(1), BodyKind::Cl(1023), BodyKind::Cl(1024), BodyKind::Cl(1024)];
     let large_kinds = [BodyKind::Cl(1025), BodyKind::Cl(20000), BodyKind::Chunked(3000), BodyKind::Chunked(10)];
     let mut kinds: Vec<BodyKind> = (0..n).map(|_| rng.pick(&small_kinds).clone()).collect();
@@ -153,7 +172,16 @@ fn run_trial(ctx: &Ctx, env: &Env, cs: u64) {
             return;
         }
     };
-    let app = Arc::new(HoldApp { port: client.port, held: Mutex::new(Vec::new()), cv: Condvar::new() });
+    let app = Arc::new(HoldApp {
+        port: client.port,
+        held: Mutex::new(Vec::new()),
+        cv: Condvar::new(),
+        blocking: workers,
+        released: std::sync::atomic::AtomicBool::new(false),
+    });
+    if workers {
+        rep.inc("A_trials_with_8_receivers_each_keeping_its_request");
+    }
     env.set_app(Some(app.clone()));
     let cal = CalWindow::open();
     send_wire(&mut rng, &mut client, &wire);
@@ -172,7 +200,9 @@ fn run_trial(ctx: &Ctx, env: &Env, cs: u64) {
             rep.inc("A_trials_with_body_of_exactly_1024");
         }
         if got < n {
-            let (healthy, _, _) = crate::conv::confirm_healthy(env, &cal, bound);
+            // (with every receiver keeping its request a control request would need a free
+            // receiver and go through the very queue under test: the calibrator alone decides)
+            let healthy = if workers { cal.healthy(Duration::from_millis(150)) } else { crate::conv::confirm_healthy(env, &cal, bound).0 };
             if !healthy {
                 inconclusive = Some("A: pipeline not delivered, process/server not demonstrably running".into());
             } else {
@@ -388,6 +418,7 @@ fn run_trial(ctx: &Ctx, env: &Env, cs: u64) {
         }
         sig = format!("B|n{}|{:?}|{:?}", n, kinds, actions);
     }
+    app.release();
     env.set_app(None);
     client.half_close();
     let _ = client.await_end(&|_| false, Duration::from_millis(if verdict.is_some() { 100 } else { 1500 }));
@@ -414,7 +445,7 @@ fn run_trial(ctx: &Ctx, env: &Env, cs: u64) {
             J::A(app.held.lock().unwrap().iter().map(|h| J::s(format!("{} at {} us", h.url, h.t_ns / 1000))).collect()),
         );
     if let Some((s, what)) = verdict {
-        rep.violation(Violation { signature: s, what, detail, case_seed: cs, mode: "native".into() });
+        rep.violation(Violation { signature: s, what, detail, case_seed: cs, mode: if workers { "workers".into() } else { "native".into() } });
     } else if rep.want_sample() && cs % 7 == 0 {
         rep.sample(|| detail);
     }
@@ -422,11 +453,12 @@ fn run_trial(ctx: &Ctx, env: &Env, cs: u64) {
 
 pub fn run(ctx: &Ctx) {
     crate::env::install_fp_hook();
-    if let Some((cs, _, repeat)) = &ctx.replay {
-        let env = Env::new(false, 1);
+    if let Some((cs, mode, repeat)) = &ctx.replay {
+        let workers = mode == "workers";
+        let env = Env::new(false, if workers { 8 } else { 1 });
         crate::env::fp_configure(*cs, &[v::FP_READER_HANDOFF, v::FP_CONN_PRE_PUSH], 150, 300);
         for _ in 0..(*repeat).max(1) {
-            run_trial(ctx, &env, *cs);
+            run_trial(ctx, &env, *cs, workers);
         }
         return;
     }
@@ -434,13 +466,16 @@ pub fn run(ctx: &Ctx) {
     let pert = crate::env::perturb_setup(&mut rng, ctx.shard, true);
     let permille = *rng.pick(&[0u32, 100, 300]);
     crate::env::fp_configure(ctx.seed ^ ctx.shard as u64, &[v::FP_READER_HANDOFF, v::FP_CONN_PRE_PUSH], permille, 300);
-    let mut env = Env::new(false, 1);
+    // a third of the shards: an application of eight worker threads blocked in recv
+    let workers = ctx.shard % 3 == 1;
+    let ndisp = if workers { 8 } else { 1 };
+    let mut env = Env::new(false, ndisp);
     let mut idx = 0u64;
     while ctx.time_left() {
         if env.cases_run >= 2000 {
-            env = Env::new(false, 1);
+            env = Env::new(false, ndisp);
         }
-        run_trial(ctx, &env, ctx.case_seed(idx));
+        run_trial(ctx, &env, ctx.case_seed(idx), workers);
         env.cases_run += 1;
         idx += 1;
         if ctx.rep.n_violations() >= 8 {
